@@ -1,7 +1,8 @@
 /-
   C03 — property theorems: ChaCha20 keystream is the RFC 8439 block function, seekable and split-invariant.
 
-  Model: XC/Model/C03.lean (chacha20.Cipher as written, bufSize = 64 as on amd64 / purego) and
+  Model: XC/Model/C03.lean (chacha20.Cipher as written, for every buffer size bufSize = 64·m, m ≥ 1:
+  m = 1 on amd64 / purego / portable builds, m = 4 on arm64 / ppc64 / s390x) and
   XC/Model/C03_Block.lean (RFC 8439 block function, HChaCha20, keystream — written from the RFC).
   Helper lemmas: XC/Proofs/C03_{Block,Refine,Step,Hist,Init}.lean.
 -/
@@ -32,33 +33,41 @@ theorem hchacha20_eq (key nonce : Bytes) :
 
 /-- NewUnauthenticatedCipher: 12-byte nonce → (key, nonce); 24-byte nonce → (HChaCha20(key, nonce[0:16]),
     0⁴ ‖ nonce[16:24]); anything else is an error; the new cipher is at keystream position 0 -/
-theorem new_spec (key nonce : Bytes) :
-    newCipher 1 key nonce =
-      if key.length = 32 ∧ nonce.length = 12 then some (mkCipher 1 (keyWords key) (nonceWords nonce))
+theorem new_spec (m : Nat) (key nonce : Bytes) :
+    newCipher m key nonce =
+      if key.length = 32 ∧ nonce.length = 12 then some (mkCipher m (keyWords key) (nonceWords nonce))
       else if key.length = 32 ∧ nonce.length = 24 then
-        some (mkCipher 1 (keyWords (xkey key nonce)) (nonceWords (xnonce nonce)))
+        some (mkCipher m (keyWords (xkey key nonce)) (nonceWords (xnonce nonce)))
       else none :=
-  newCipher_spec key nonce
+  newCipher_spec m key nonce
 
-theorem new_inv (k : KeyW) (n : NonceW) : Inv (mkCipher 1 k n) ∧ pos (mkCipher 1 k n) = 0 :=
-  ⟨mkCipher_inv k n, mkCipher_pos k n⟩
+theorem new_inv (m : Nat) (hm : 0 < m) (k : KeyW) (n : NonceW) :
+    Inv m (mkCipher m k n) ∧ pos (mkCipher m k n) = 0 :=
+  ⟨mkCipher_inv m hm k n, mkCipher_pos m k n⟩
 
-/-! ## 2. refinement: every history -/
+/-! ## 2. refinement: every history, every buffer size -/
 
-/-- **Refinement.** For every history of XORKeyStream / SetCounter calls on a cipher state satisfying the
-    invariant (in particular a fresh one), the concrete cipher — counter, len, buf, overflow flag, cached
-    first round — yields exactly the outputs and the panic of the specification
-    "xor with RFC-keystream bytes `pos…`; SetCounter c moves to 64·c unless that is a rollback;
-     panic when byte 2^38 would be needed". -/
-theorem history_refines (ops : List Op) (s : Cipher) (hi : Inv s) :
-    run 1 s ops = specRun s.key s.nonce (pos s) ops :=
-  run_refines ops s hi
+/-- **Refinement.** For every buffer size bufSize = 64·m (m ≥ 1) and every history of XORKeyStream /
+    SetCounter calls on a cipher state satisfying the invariant (in particular a fresh one), the concrete
+    cipher — counter, len, buf, overflow flag, cached first round, multi-block refill vs one-block-at-a-time
+    refill next to 2^32, SetCounter inside the buffered blocks — yields exactly the outputs and the panic of the
+    specification "xor with RFC-keystream bytes `pos…`; SetCounter c moves to 64·c unless that is a rollback;
+    panic when byte 2^38 would be needed". -/
+theorem history_refines (m : Nat) (ops : List Op) (s : Cipher) (hi : Inv m s) :
+    run m s ops = specRun s.key s.nonce (pos s) ops :=
+  run_refines m ops s hi
 
-theorem history_from_new (k : KeyW) (n : NonceW) (ops : List Op) :
-    run 1 (mkCipher 1 k n) ops = specRun k n 0 ops := by
-  have := run_refines ops (mkCipher 1 k n) (mkCipher_inv k n)
+theorem history_from_new (m : Nat) (hm : 0 < m) (k : KeyW) (n : NonceW) (ops : List Op) :
+    run m (mkCipher m k n) ops = specRun k n 0 ops := by
+  have := run_refines m ops (mkCipher m k n) (mkCipher_inv m hm k n)
   rw [mkCipher_pos] at this
   exact this
+
+/-- all buffer sizes compute the same thing: the arm64/ppc64/s390x configuration (m = 4) and the
+    amd64/portable one (m = 1) agree on every history -/
+theorem buffer_size_irrelevant (k : KeyW) (n : NonceW) (ops : List Op) :
+    run 4 (mkCipher 4 k n) ops = run 1 (mkCipher 1 k n) ops := by
+  rw [history_from_new 4 (by decide), history_from_new 1 (by decide)]
 
 /-! ## 3. consequences stated on the specification (they transfer to the cipher by `history_refines`) -/
 
@@ -95,35 +104,35 @@ theorem spec_split (k n) (chunks : List Bytes) (pos : Nat) (rest : List Op)
     · simp [h3, xorBytes_length, ksRange_length]
 
 /-- concrete form: any split of the input into successive XORKeyStream calls on a cipher = the single call -/
-theorem split_invariant (s : Cipher) (hi : Inv s) (chunks : List Bytes)
+theorem split_invariant (m : Nat) (s : Cipher) (hi : Inv m s) (chunks : List Bytes)
     (h : pos s + chunks.flatten.length ≤ limit) :
     ∃ outs : List Bytes,
-      run 1 s (chunks.map .xor) = (outs, none) ∧
-      run 1 s [.xor chunks.flatten] = ([outs.flatten], none) ∧
+      run m s (chunks.map .xor) = (outs, none) ∧
+      run m s [.xor chunks.flatten] = ([outs.flatten], none) ∧
       outs.flatten = xorBytes chunks.flatten (ksRange s.key s.nonce (pos s) chunks.flatten.length) ∧
       outs.map List.length = chunks.map List.length := by
   obtain ⟨outs, h1, h2, h3⟩ := spec_split s.key s.nonce chunks (pos s) [] h
   refine ⟨outs, ?_, ?_, h2, h3⟩
-  · rw [run_refines _ s hi]
+  · rw [run_refines m _ s hi]
     simpa [specRun] using h1
-  · rw [run_refines _ s hi]
+  · rw [run_refines m _ s hi]
     simp only [specRun, specStep_xor_ok _ _ _ _ h, h2]
 
 /-- non-vacuity of `split_invariant`: a fresh cipher and a three-way split with an empty middle chunk -/
 example (k : KeyW) (n : NonceW) (a b : Bytes) (h : a.length + b.length ≤ 1000) :
     ∃ outs, run 1 (mkCipher 1 k n) [.xor a, .xor [], .xor b] = (outs, none) ∧
       run 1 (mkCipher 1 k n) [.xor (a ++ b)] = ([outs.flatten], none) := by
-  obtain ⟨outs, h1, h2, _, _⟩ := split_invariant (mkCipher 1 k n) (mkCipher_inv k n) [a, [], b]
+  obtain ⟨outs, h1, h2, _, _⟩ := split_invariant 1 (mkCipher 1 k n) (mkCipher_inv 1 (by decide) k n) [a, [], b]
     (by simp [mkCipher_pos, limit]; omega)
   exact ⟨outs, h1, by simpa using h2⟩
 
 /-- **Seek.** `SetCounter c` followed by XORKeyStream xors with the keystream starting at byte 64·c —
     provided it is not a rollback (c ≥ ⌈pos/64⌉) and the last block has not been started. -/
-theorem setCounter_then_xor (s : Cipher) (hi : Inv s) (c : UInt32) (src : Bytes)
+theorem setCounter_then_xor (m : Nat) (s : Cipher) (hi : Inv m s) (c : UInt32) (src : Bytes)
     (hfwd : pos s ≤ 64 * c.toNat) (hlive : pos s ≤ limit - 64) (hfit : 64 * c.toNat + src.length ≤ limit) :
-    run 1 s [.setCounter c, .xor src] =
+    run m s [.setCounter c, .xor src] =
       ([[], xorBytes src (ksRange s.key s.nonce (64 * c.toNat) src.length)], none) := by
-  rw [run_refines _ s hi]
+  rw [run_refines m _ s hi]
   have h1 : specStep s.key s.nonce (pos s) (.setCounter c) = .ok (64 * c.toNat, []) := by
     simp only [specStep]
     have : ¬ (pos s > limit - 64 ∨ 64 * c.toNat < pos s) := by omega
@@ -133,24 +142,24 @@ theorem setCounter_then_xor (s : Cipher) (hi : Inv s) (c : UInt32) (src : Bytes)
 /-- **RFC 8439 §2.4 end to end.** A fresh cipher for a 32-byte key and 12-byte nonce, SetCounter(ctr), one
     XORKeyStream(src) = `src xor (block(key,ctr,nonce) ‖ block(key,ctr+1,nonce) ‖ …)` as long as the
     keystream does not run past block 2^32−1 -/
-theorem oneshot_rfc8439 (key nonce : Bytes) (hk : key.length = 32) (hn : nonce.length = 12)
+theorem oneshot_rfc8439 (m : Nat) (hm : 0 < m) (key nonce : Bytes) (hk : key.length = 32) (hn : nonce.length = 12)
     (ctr : UInt32) (src : Bytes) (hfit : 64 * ctr.toNat + src.length ≤ limit) :
-    ∃ c, newCipher 1 key nonce = some c ∧
-      run 1 c [.setCounter ctr, .xor src] = ([[], xorStream key nonce ctr src], none) := by
-  refine ⟨mkCipher 1 (keyWords key) (nonceWords nonce), by simp [newCipher_spec, hk, hn], ?_⟩
-  have := setCounter_then_xor (mkCipher 1 (keyWords key) (nonceWords nonce)) (mkCipher_inv _ _) ctr src
+    ∃ c, newCipher m key nonce = some c ∧
+      run m c [.setCounter ctr, .xor src] = ([[], xorStream key nonce ctr src], none) := by
+  refine ⟨mkCipher m (keyWords key) (nonceWords nonce), by simp [newCipher_spec, hk, hn], ?_⟩
+  have := setCounter_then_xor m (mkCipher m (keyWords key) (nonceWords nonce)) (mkCipher_inv m hm _ _) ctr src
     (by simp [mkCipher_pos]) (by simp [mkCipher_pos]) hfit
   rw [this, xorStream, keystream_eq key nonce ctr src.length hfit]
   rfl
 
 /-- XChaCha20 end to end: 24-byte nonce → ChaCha20 under the HChaCha20 sub-key and nonce 0⁴‖nonce[16:24] -/
-theorem oneshot_xchacha (key nonce : Bytes) (hk : key.length = 32) (hn : nonce.length = 24)
+theorem oneshot_xchacha (m : Nat) (hm : 0 < m) (key nonce : Bytes) (hk : key.length = 32) (hn : nonce.length = 24)
     (ctr : UInt32) (src : Bytes) (hfit : 64 * ctr.toNat + src.length ≤ limit) :
-    ∃ c, newCipher 1 key nonce = some c ∧
-      run 1 c [.setCounter ctr, .xor src] = ([[], xorStream (xkey key nonce) (xnonce nonce) ctr src], none) := by
-  refine ⟨mkCipher 1 (keyWords (xkey key nonce)) (nonceWords (xnonce nonce)), by simp [newCipher_spec, hk, hn], ?_⟩
-  have := setCounter_then_xor (mkCipher 1 (keyWords (xkey key nonce)) (nonceWords (xnonce nonce)))
-    (mkCipher_inv _ _) ctr src (by simp [mkCipher_pos]) (by simp [mkCipher_pos]) hfit
+    ∃ c, newCipher m key nonce = some c ∧
+      run m c [.setCounter ctr, .xor src] = ([[], xorStream (xkey key nonce) (xnonce nonce) ctr src], none) := by
+  refine ⟨mkCipher m (keyWords (xkey key nonce)) (nonceWords (xnonce nonce)), by simp [newCipher_spec, hk, hn], ?_⟩
+  have := setCounter_then_xor m (mkCipher m (keyWords (xkey key nonce)) (nonceWords (xnonce nonce)))
+    (mkCipher_inv m hm _ _) ctr src (by simp [mkCipher_pos]) (by simp [mkCipher_pos]) hfit
   rw [this, xorStream, keystream_eq _ _ ctr src.length hfit]
   rfl
 
@@ -158,10 +167,10 @@ theorem oneshot_xchacha (key nonce : Bytes) (hk : key.length = 32) (hn : nonce.l
 
 /-- XORKeyStream panics iff the input is non-empty and would need a keystream byte at or beyond 2^38
     (= a block with index ≥ 2^32); the panic is the overflow panic (never the internal-error panic);
-    it never wraps the counter silently -/
-theorem xor_panics_iff (s : Cipher) (hi : Inv s) (src : Bytes) :
-    (∃ e, xorKeyStream 1 s src = .error e) ↔ (src.length ≠ 0 ∧ pos s + src.length > limit) := by
-  have := xorKeyStream_spec s hi src
+    it never wraps the counter silently — for every buffer size -/
+theorem xor_panics_iff (m : Nat) (s : Cipher) (hi : Inv m s) (src : Bytes) :
+    (∃ e, xorKeyStream m s src = .error e) ↔ (src.length ≠ 0 ∧ pos s + src.length > limit) := by
+  have := xorKeyStream_spec m s hi src
   by_cases h0 : src.length = 0
   · simp only [h0, if_true] at this; simp [this, h0]
   · simp only [h0, if_false] at this
@@ -171,9 +180,9 @@ theorem xor_panics_iff (s : Cipher) (hi : Inv s) (src : Bytes) :
       obtain ⟨s', he, _⟩ := this
       simp [he, hp]
 
-theorem xor_panic_kind (s : Cipher) (hi : Inv s) (src : Bytes) (e : Panic)
-    (h : xorKeyStream 1 s src = .error e) : e = .overflow := by
-  have := xorKeyStream_spec s hi src
+theorem xor_panic_kind (m : Nat) (s : Cipher) (hi : Inv m s) (src : Bytes) (e : Panic)
+    (h : xorKeyStream m s src = .error e) : e = .overflow := by
+  have := xorKeyStream_spec m s hi src
   by_cases h0 : src.length = 0
   · simp only [h0, if_true] at this; simp [this] at h
   · simp only [h0, if_false] at this
@@ -185,9 +194,9 @@ theorem xor_panic_kind (s : Cipher) (hi : Inv s) (src : Bytes) (e : Panic)
 
 /-- SetCounter panics iff the last block has been started (overflow) or the target is below the
     current block (rollback) -/
-theorem setCounter_panics_iff (s : Cipher) (hi : Inv s) (c : UInt32) :
+theorem setCounter_panics_iff (m : Nat) (s : Cipher) (hi : Inv m s) (c : UInt32) :
     (∃ e, setCounter s c = .error e) ↔ (pos s > limit - 64 ∨ 64 * c.toNat < pos s) := by
-  have := setCounter_spec s hi c
+  have := setCounter_spec m s hi c
   by_cases hp : pos s > limit - 64 ∨ 64 * c.toNat < pos s
   · simp only [hp, if_true] at this; simp [this, hp]
   · simp only [hp, if_false] at this
@@ -197,7 +206,7 @@ theorem setCounter_panics_iff (s : Cipher) (hi : Inv s) (c : UInt32) :
 /-- non-vacuity: at counter 2^32−1 one block succeeds and one more byte panics -/
 example (k : KeyW) (n : NonceW) (b : Bytes) (hb : b.length = 64) (x : UInt8) :
     ∃ o, run 1 (mkCipher 1 k n) [.setCounter 0xffffffff, .xor b, .xor [x]] = ([[], o], some .overflow) := by
-  rw [history_from_new]
+  rw [history_from_new 1 (by decide)]
   refine ⟨xorBytes b (ksRange k n (64 * 4294967295) 64), ?_⟩
   have h1 : specStep k n 0 (.setCounter 0xffffffff) = .ok (64 * 4294967295, []) := by
     simp [specStep, limit]
@@ -205,39 +214,26 @@ example (k : KeyW) (n : NonceW) (b : Bytes) (hb : b.length = 64) (x : UInt8) :
   simp only [specRun, h1, h2, hb]
   simp [specStep, limit]
 
-/-! ## 5. multi-block buffers (bufSize = 256: the arm64 / ppc64 / s390x ports) — overflow logic refuted
+/-! ## 5. the multi-block ports next to 2^32 (regression witness for /repo f60df7a)
 
-  The control logic of XORKeyStream / SetCounter in chacha_generic.go is shared by all ports; only
-  `bufSize` and `xorKeyStreamBlocks` differ.  With `m = bufSize/64 = 4` (xorKeyStreamBlocks modelled by the
-  generic loop, i.e. a 32-bit counter that advances by one per block) the refinement statement is FALSE:
-  when a partial buffer is filled at counter 2^32−4 the code takes the multi-block path
-  (`uint64(s.counter)+blocksPerBuf > 1<<32` is false for equality), the counter wraps to 0 and `overflow`
-  is not set (numBlocks was 1), so the next call neither panics nor stops: it re-uses block 0.
-  Not reachable on amd64/purego (bufSize = 64), hence not observable by the correspondence run here. -/
-
-/-- the statement of `history_from_new` for bufSize = 256 -/
-def multiblock_refines : Prop :=
-  ∀ (k : KeyW) (n : NonceW) (ops : List Op), run 4 (mkCipher 4 k n) ops = specRun k n 0 ops
+  Before the fix (`uint64(s.counter)+blocksPerBuf > 1<<32`) the history below, on a bufSize = 256 port,
+  refilled the whole buffer at counter 2^32−4, wrapped the counter to 0 without setting `overflow`, and the
+  third call re-used keystream block 0.  With the fixed guard (`>=`) the refill is done one block at a time
+  and the third call panics, as the specification demands. -/
 
 def wrapOps : List Op := [.setCounter 0xfffffffc, .xor (zeros 10), .xor (zeros 300)]
 
 set_option maxRecDepth 100000 in
-/-- the specification panics (byte 2^38 would be needed) … -/
-theorem wrap_spec_panics : (specRun ⟨0,0,0,0,0,0,0,0⟩ ⟨0,0,0⟩ 0 wrapOps).2 = some .overflow := by decide +kernel
+theorem wrap_spec_panics (k : KeyW) (n : NonceW) : (specRun k n 0 wrapOps).2 = some .overflow := by
+  have h1 : specStep k n 0 (.setCounter 0xfffffffc) = .ok (64 * 4294967292, []) := by
+    simp [specStep, limit]
+  have h2 := specStep_xor_ok k n (64 * 4294967292) (zeros 10) (by simp [zeros, limit])
+  simp only [wrapOps, specRun, h1, h2]
+  simp [specStep, limit, zeros]
 
-set_option maxRecDepth 100000 in
-/-- … the bufSize = 256 code does not, and the last 54 bytes it produces are keystream block 0 again -/
-theorem wrap_impl_reuses_block0 :
-    (run 4 (mkCipher 4 ⟨0,0,0,0,0,0,0,0⟩ ⟨0,0,0⟩) wrapOps).2 = none ∧
-    ((run 4 (mkCipher 4 ⟨0,0,0,0,0,0,0,0⟩ ⟨0,0,0⟩) wrapOps).1.getD 2 []).drop 246 =
-      (blockW ⟨0,0,0,0,0,0,0,0⟩ 0 ⟨0,0,0⟩).take 54 := by decide +kernel
-
-theorem multiblock_refuted : ¬ multiblock_refines := by
-  intro h
-  have h1 := wrap_spec_panics
-  have h2 := wrap_impl_reuses_block0.1
-  rw [← h ⟨0,0,0,0,0,0,0,0⟩ ⟨0,0,0⟩ wrapOps] at h1
-  rw [h2] at h1
-  cases h1
+/-- on every buffer size (in particular m = 4) the history ends in the overflow panic -/
+theorem wrap_panics_every_bufsize (m : Nat) (hm : 0 < m) (k : KeyW) (n : NonceW) :
+    (run m (mkCipher m k n) wrapOps).2 = some .overflow := by
+  rw [history_from_new m hm, wrap_spec_panics]
 
 end XC.C03
